@@ -540,10 +540,13 @@ Definition list_first fuel root x :=
 (* kind: 0 = [], 1 = get (default sentinel "<D>"), 2 = first; the observation is the
    pair (value-or-outcome, tree afterwards) *)
 Definition s_dflt : pstr := [60; 68; 62]%N.
-Definition lres_out (r : res (tree * lres)) : out :=
+(* [dflt]: what a miss that does not raise returns - the caller's sentinel for get/first, None for
+   item access (n0list_.__getitem__('') answers None: _get returns if_not_found before it looks at
+   raise_exception) *)
+Definition lres_out (dflt : tree) (r : res (tree * lres)) : out :=
   match r with
   | Ok (root', LVal v) => Ok (t_list [v; root'])
-  | Ok (root', LDefault) => Ok (t_list [t_str s_dflt; root'])
+  | Ok (root', LDefault) => Ok (t_list [dflt; root'])
   | Ok (root', LEmpty) => Ok (t_list [t_str []; root'])
   | Ok (root', LRaise e) => Raise e
   | Raise e => Raise e
@@ -553,15 +556,16 @@ Definition lres_out (r : res (tree * lres)) : out :=
 
 Definition obs_lookup (kind : nat) (root : tree) (x : pstr) : out :=
   let fuel := fuel_for root x in
+  let dflt := match kind with 0 => t_none | _ => t_str s_dflt end in
   match root with
   | Dict _ _ =>
-    lres_out (match kind with
+    lres_out dflt (match kind with
               | 0 => dict_getitem fuel root x
               | 1 => dict_get_pub fuel root x
               | _ => dict_first fuel root x
               end)
   | Lst _ _ =>
-    lres_out (match kind with
+    lres_out dflt (match kind with
               | 0 => list_get fuel root x true true
               | 1 => list_get fuel root x false true
               | _ => list_first fuel root x
